@@ -158,6 +158,20 @@ def h_tdvp_numeric(V, family, N, seed, method, order):
                 # norm on the first site tensor (the '1site' sweep moves it to psi.factor) -- an observation, not demanded here
                 V.check('real-time:state-canonical-towards-first', bool(psi.is_canonical(to='first', tol=1e-8)))
         V.check('one-result-per-snapshot', k == len(times) - 1)
+    # performance / bookkeeping flags: precompute, a sum of MPOs, subtract_E (changes the global phase only), normalize, yield_initial
+    ops.random_seed(seed + 3)
+    psi = mps.random_mps(I, D_total=64, dtype='complex128', **kw)
+    psi.canonize_(to='first')
+    v0 = dense_in_space(ops, psi)
+    times = (0.0, 0.1, 0.25)
+    outs = list(mps.tdvp_(psi, [0.3 * H, 0.7 * H], times=times, dt=0.05, u=1j, method=method, order=order, normalize=True, subtract_E=True, precompute=True,
+                          yield_initial=True, opts_expmv={'hermitian': True, 'tol': 1e-12}, **opts))
+    v = dense_in_space(ops, psi)
+    ref = scipy.linalg.expm(-1j * times[-1] * Hm) @ v0
+    tol = 2e-5 if order == '2nd' else 1e-7
+    V.check('flags(precompute,sum,subtract_E,normalize):evolved-state-equals-expm-up-to-a-global-phase',
+            abs(abs(np.vdot(ref, v)) - 1) <= tol and abs(np.linalg.norm(v) - 1) <= 1e-9)
+    V.check('flags:yield_initial-adds-the-initial-snapshot', len(outs) == len(times) and abs(outs[0].tf - times[0]) <= 1e-13 and abs(outs[-1].tf - times[-1]) <= 1e-13)
     # time-dependent generator: convergence order
     if method == '1site':
         H1, _, _ = herm_mpo(ops, N, seed + 9)
